@@ -442,10 +442,11 @@ def long_case(ctx, rng, method, Ndat, l, r, br, form, seed, extra=(), tag="long"
                       dict(case, t=int(ts[n]), entry=[i, a, j, b], deviating_t=[int(ts[m]) for m in badn[:20]]))
 
 
-def glue_case(ctx, cls, method, data, ref, br, inst_ok=True, tag="class-glue", ordmax=None, calc_unc=False, nb=None):
+def glue_case(ctx, cls, method, data, ref, br, inst_ok=True, tag="class-glue", ordmax=None, calc_unc=False, nb=None, setup_form=None):
     """result.H of the algorithm class = Hankel matrix of (all channels, reference channels in the listed order) for the
     br THE USER PASSED, whatever legal ordmax goes with it; the setup's records are not altered; a second run gives the
-    same matrix."""
+    same matrix.  setup_form: None = SingleSetup(arr, fs=10.0); "positional" = SingleSetup(arr, 10.0) in the parameter
+    order (data, fs); "keyword" = SingleSetup(data=arr, fs=10.0).  Returns result.H of the first run (None: no verdict)."""
     from pyoma2.algorithms import SSIcov
     from pyoma2.setup import SingleSetup
     l = data.shape[1]
@@ -453,7 +454,17 @@ def glue_case(ctx, cls, method, data, ref, br, inst_ok=True, tag="class-glue", o
     if ordmax is None:
         ordmax = min(4, (br + 1) * len(refl))
     arr = data.copy()
-    ss = SingleSetup(arr, fs=10.0)
+    if setup_form == "positional":
+        try:
+            ss = SingleSetup(arr, 10.0)
+        except Exception as e:
+            ofail(ctx, "C12:SingleSetup:positional-call", "SingleSetup(data, fs) called positionally raised %s: %s" % (type(e).__name__, str(e)[:200]),
+                  dict(kind=tag, samples=int(data.shape[0]), l=l))
+            return None
+    elif setup_form == "keyword":
+        ss = SingleSetup(data=arr, fs=10.0)
+    else:
+        ss = SingleSetup(arr, fs=10.0)
     kw = dict(br=br, ordmax=ordmax, ref_ind=None if ref is None else list(ref))
     if calc_unc:
         kw.update(calc_unc=True, nb=nb)
@@ -470,7 +481,7 @@ def glue_case(ctx, cls, method, data, ref, br, inst_ok=True, tag="class-glue", o
     except Exception as e:  # legal settings: nothing to observe is not a verdict on the layout, but the check no longer sees result.H
         ctx.fail("correspondence", "%s(br=%d, ordmax=%d, ref_ind=%s).run raised %s: %s" % (cls.__name__, br, ordmax, ref, type(e).__name__, str(e)[:200]),
                  case, key="C12:glue:%s:run-raised" % method)
-        return
+        return None
     Hc = np.array(alg.result.H)
     ctx.hist("glue-ref", (method, "None" if ref is None else "all-natural" if refl == list(range(l)) else "all-permuted" if sorted(refl) == list(range(l))
                           else "subset-sorted" if refl == sorted(refl) else "subset-unsorted"))
@@ -489,7 +500,7 @@ def glue_case(ctx, cls, method, data, ref, br, inst_ok=True, tag="class-glue", o
     want = ((br + 1) * l, (br + 1) * len(refl))
     if Hd.shape != want:  # 'dat' with fewer columns than past reference rows (rank-deficient past): outside the oracle contract
         ctx.not_judged += 1
-        return
+        return Hc
     if Hc.shape != want:
         ofail(ctx, "C12:glue:%s:shape" % method, "%s(br=%d, ordmax=%d, ref_ind=%s) on a table of %d samples x %d channels: result.H has shape %s, expected %s = "
               "((br+1)*%d channels, (br+1)*%d references) for the br that was passed"
@@ -518,6 +529,7 @@ def glue_case(ctx, cls, method, data, ref, br, inst_ok=True, tag="class-glue", o
                 return
     if not np.allclose(Hc, Hd, rtol=1e-10, atol=1e-12 * np.abs(Hd).max()):
         ofail(ctx, key, "%s.result.H (ref_ind=%s) is not build_hank(all channels, reference channels in listed order)" % (cls.__name__, ref), case)
+    return Hc
 
 
 def multi_data(seed, ndats, nsens):
@@ -525,11 +537,13 @@ def multi_data(seed, ndats, nsens):
     return [g.integers(-64, 65, size=(nd, ns)) / 16.0 for nd, ns in zip(ndats, nsens)]
 
 
-def multi_case(ctx, clsname, method, datasets, ref_ind, br, ordmax, inst_ok=True, tag="multi-setup", desc=None):
+def multi_case(ctx, clsname, method, datasets, ref_ind, br, ordmax, inst_ok=True, tag="multi-setup", desc=None, positional=False):
     """Multi-setup path (MultiSetup_PreGER -> SSIcov_MS / SSIdat_MS -> ssi.SSI_multi_setup): every per-setup Hankel matrix
     is observed by wrapping pyoma2.functions.ssi.build_hank from here.  For setup k: data argument = [reference channels
     in the listed order; remaining channels in natural order], reference argument = the reference records, br and method
-    as passed, result of shape (br+1)*(n_ref+n_mov) x (br+1)*n_ref with the entries of the definition."""
+    as passed, result of shape (br+1)*(n_ref+n_mov) x (br+1)*n_ref with the entries of the definition.
+    positional=True: the setup is built as MultiSetup_PreGER(fs, ref_ind, datasets) without keywords (hard-coded order).
+    Returns the list of observed per-setup Hankel matrices."""
     import inspect
     import pyoma2.algorithms as algs
     from pyoma2.setup import MultiSetup_PreGER
@@ -555,7 +569,10 @@ def multi_case(ctx, clsname, method, datasets, ref_ind, br, ordmax, inst_ok=True
     raised = None
     ssi.build_hank = recorder
     try:
-        msp = MultiSetup_PreGER(fs=10.0, ref_ind=[list(r) for r in ref_ind], datasets=[d.copy() for d in datasets])
+        if positional:
+            msp = MultiSetup_PreGER(10.0, [list(r) for r in ref_ind], [d.copy() for d in datasets])
+        else:
+            msp = MultiSetup_PreGER(fs=10.0, ref_ind=[list(r) for r in ref_ind], datasets=[d.copy() for d in datasets])
         alg = cls(name="m", method=method, br=br, ordmax=ordmax) if clsname == "SSIcov_MS" else cls(name="m", br=br, ordmax=ordmax)
         msp.add_algorithms(alg)
         msp.run_by_name("m")
@@ -608,11 +625,15 @@ def multi_case(ctx, clsname, method, datasets, ref_ind, br, ordmax, inst_ok=True
         if probs:
             nbad += 1
             ofail(ctx, key, "%s: %s" % (where, "; ".join(probs)), casek)
+    if positional and len(calls) != len(datasets):
+        ofail(ctx, "C12:MultiSetup_PreGER:positional-call", "MultiSetup_PreGER(fs, ref_ind, datasets) built positionally + %s(%s): %d Hankel matrices observed for %d setups%s"
+              % (clsname, method, len(calls), len(datasets), "" if raised is None else " (raised %s)" % raised), case)
     if len(calls) != len(datasets) and not nbad:
         ctx.fail("correspondence", "%s(%s): %d build_hank calls observed for %d setups%s" % (clsname, method, len(calls), len(datasets), "" if raised is None else " (run raised %s)" % raised),
                  case, key="C12:multi:%s:calls" % method)
     elif raised is not None and not nbad:
         ctx.note("multi-setup run raised after the Hankel matrices were built (not judged here): %s" % raised)
+    return [c["H"] for c in calls]
 
 
 def unc_grid(quick):
@@ -845,6 +866,184 @@ def run_corpus(ctx, rng, pending):
                            % (c["ndats"], c["nsens"], c["data_seed"]))
 
 
+# Parameter order of the PRISTINE signatures, hard-coded (never read from the tree under test):
+#   ssi.build_hank(Y, Yref, br, method, calc_unc=False, nb=100)
+#   ssi.SSI_multi_setup(Y, fs, br, ordmax, method_hank, step=1)
+#   SingleSetup(data, fs)      MultiSetup_PreGER(fs, ref_ind, datasets)      setup.add_algorithms(*algorithms)      setup.run_by_name(name)
+BUILD_HANK_ORDER = ("Y", "Yref", "br", "method", "calc_unc", "nb")
+SSI_MULTI_SETUP_ORDER = ("Y", "fs", "br", "ordmax", "method_hank", "step")
+
+
+def _same(a, b):
+    if a is None or b is None:
+        return a is None and b is None
+    a, b = np.asarray(a), np.asarray(b)
+    return a.shape == b.shape and a.tobytes() == b.tobytes()
+
+
+def positional_calls(ctx):
+    """Every entry point the check drives, called fully positionally in the pristine parameter order with non-default
+    values, must give (a) the answer of the keyword call, bit for bit, and (b) the property's matrix.  Own random stream
+    (derived from the seed) so that the other sections draw what they drew before."""
+    from pyoma2.algorithms import SSIcov, SSIdat
+    rng = np.random.default_rng([int(ctx.seed), 12, 4242])
+
+    # ---- ssi.build_hank(Y, Yref, br, method, calc_unc, nb)
+    # cov_mm: calc_unc=True and nb != 100 (T returned, nb columns); cov_R / dat: calc_unc must stay False (True is a
+    # documented error), nb = 7: a value landing in the calc_unc slot raises, one lost to a new parameter changes T.
+    key = "C12:build_hank:positional-call"
+    plan = [("cov_mm", True, 3), ("cov_mm", True, 4), ("cov_mm", True, 5), ("cov_mm", True, 2), ("cov_R", False, 7), ("cov_R", False, 7), ("dat", False, 7), ("dat", False, 7)]
+    for n, (method, cu, nb) in enumerate(plan):
+        l, r, br = [(3, 2, 2), (2, 1, 3), (4, 3, 1), (3, 1, 2)][n % 4]
+        N = 3 * nb + 1 + int(rng.integers(0, 3)) + (3 * (br + 1) * (l + r) if method == "dat" else 0)
+        Ndat = N + 2 * br + 1
+        Y0 = dyad(rng, (l, Ndat))
+        Y0[Y0 == 0] = 0.25
+        ref = rng.permutation(l)[:r].tolist()
+        Yr0 = Y0[ref] if n % 2 == 0 else dyad(rng, (r, Ndat)) + 0.125
+        case = dict(kind="positional-call", entry="ssi.build_hank", order=list(BUILD_HANK_ORDER), method=method, l=l, r=r, br=br, Ndat=Ndat, calc_unc=cu, nb=nb,
+                    Y=Y0.tolist(), Yref=Yr0.tolist())
+        ctx.count(case)
+        ctx.hist("positional-call", ("build_hank", method, cu, nb))
+        Hk, Tk = ssi.build_hank(Y=Y0.copy(), Yref=Yr0.copy(), br=br, method=method, calc_unc=cu, nb=nb)
+        what = "build_hank(Y, Yref, %d, %r, %r, %d) called positionally" % (br, method, cu, nb)
+        try:
+            out = ssi.build_hank(Y0.copy(), Yr0.copy(), br, method, cu, nb)
+            Hp, Tp = out
+        except Exception as e:
+            ofail(ctx, key, "%s raised %s: %s (the keyword call returns a %s matrix)" % (what, type(e).__name__, str(e)[:200], Hk.shape), case)
+            continue
+        if not _same(Hk, Hp) or not _same(Tk, Tp):
+            ofail(ctx, key, "%s does not return what the keyword call returns: Hankel %s against %s (max deviation %s), T %s against %s"
+                  % (what, np.shape(Hp), np.shape(Hk), "%.3g" % np.abs(Hp - Hk).max() if np.shape(Hp) == np.shape(Hk) else "n/a",
+                     None if Tp is None else np.shape(Tp), None if Tk is None else np.shape(Tk)), case)
+            continue
+        # (b) the property on the positional call: shape, the definition / projection Gram, T present exactly for calc_unc with nb columns
+        want = ((br + 1) * l, (br + 1) * r)
+        if np.shape(Hp) != want or (Tp is None) == cu or (cu and np.shape(Tp)[-1] != nb):
+            ofail(ctx, key, "%s: Hankel matrix of shape %s (expected %s), T %s (expected %s)"
+                  % (what, np.shape(Hp), want, None if Tp is None else np.shape(Tp), "%d columns" % nb if cu else None), case)
+            continue
+        if method == "dat":
+            G, cond = projection_gram(Y0, Yr0, br)
+            HH = Hp @ Hp.T
+            if G is None:
+                ctx.not_judged += 1
+            elif not np.allclose(HH, np.trace(HH) / np.trace(G) * G, rtol=0, atol=1e-8 * np.abs(HH).max()):
+                ofail(ctx, key, "%s: H H^T is not a positive multiple of the projection Gram" % what, case)
+        else:
+            conv = convention(ctx, method, br)
+            if conv and conv[1]:
+                Hdef = independent_vec(method, Y0, Yr0, br)
+                if not np.allclose(Hp, Hdef, rtol=0, atol=1e-9 * max(1.0, np.abs(Hdef).max())):
+                    ofail(ctx, key, "%s differs from the definition (independent construction), max deviation %.3g" % (what, np.abs(Hp - Hdef).max()), case)
+
+    # ---- ssi.SSI_multi_setup(Y, fs, br, ordmax, method_hank, step): br != ordmax, step = 2; the per-setup Hankel matrices are
+    #      observed by wrapping ssi.build_hank
+    key = "C12:SSI_multi_setup:positional-call"
+    orig = ssi.build_hank
+
+    def observed(fn):
+        calls = []
+
+        def recorder(Y, Yref, br, method, *a, **k):
+            out = orig(Y, Yref, br, method, *a, **k)
+            calls.append(dict(Y=np.array(Y, copy=True), Yref=np.array(Yref, copy=True), br=br, method=method, H=np.array(out[0], copy=True)))
+            return out
+        ssi.build_hank = recorder
+        try:
+            return fn(), calls
+        finally:
+            ssi.build_hank = orig
+
+    for n, (method, br, ordmax, n_ref, n_movs) in enumerate([("cov_mm", 3, 4, 2, (1, 3)), ("cov_R", 2, 3, 2, (3, 1, 2)), ("dat", 4, 2, 1, (2, 1))]):
+        step = 2
+        Ys = []
+        for m in n_movs:
+            d = dyad(rng, (int(rng.integers(150, 220)), n_ref + m))
+            Ys.append({"ref": np.ascontiguousarray(d[:, :n_ref].T), "mov": np.ascontiguousarray(d[:, n_ref:].T)})
+        case = dict(kind="positional-call", entry="ssi.SSI_multi_setup", order=list(SSI_MULTI_SETUP_ORDER), method=method, fs=12.5, br=br, ordmax=ordmax, step=step,
+                    Y=[dict(ref=y["ref"].tolist(), mov=y["mov"].tolist()) for y in Ys])
+        ctx.count(case)
+        ctx.hist("positional-call", ("SSI_multi_setup", method, br, ordmax, step))
+        fresh = lambda: [dict(ref=y["ref"].copy(), mov=y["mov"].copy()) for y in Ys]  # noqa: E731
+        (Ok, Ak, Ck), calls_k = observed(lambda: ssi.SSI_multi_setup(Y=fresh(), fs=12.5, br=br, ordmax=ordmax, method_hank=method, step=step))
+        what = "SSI_multi_setup(Y, 12.5, %d, %d, %r, %d) called positionally" % (br, ordmax, method, step)
+        try:
+            (Op, Ap, Cp), calls_p = observed(lambda: ssi.SSI_multi_setup(fresh(), 12.5, br, ordmax, method, step))
+        except Exception as e:
+            ofail(ctx, key, "%s raised %s: %s" % (what, type(e).__name__, str(e)[:200]), case)
+            continue
+        probs = []
+        if len(calls_p) != len(calls_k) or not all(_same(a["H"], b["H"]) and a["br"] == b["br"] and a["method"] == b["method"] for a, b in zip(calls_p, calls_k)):
+            probs.append("builds other Hankel matrices than the keyword call (%s against %s)"
+                         % ([(c["br"], c["method"], c["H"].shape) for c in calls_p], [(c["br"], c["method"], c["H"].shape) for c in calls_k]))
+        if not _same(Ok, Op) or len(Ap) != len(Ak) or len(Cp) != len(Ck) or not all(_same(a, b) for a, b in zip(list(Ap) + list(Cp), list(Ak) + list(Ck))):
+            probs.append("returns other matrices than the keyword call (observability %s against %s, %d against %d orders)" % (np.shape(Op), np.shape(Ok), len(Ap), len(Ak)))
+        # (b) hard-coded expectation
+        n_dof = n_ref + sum(n_movs)
+        if np.shape(Op) != (n_dof * br, ordmax) or len(Ap) != len(range(0, ordmax + 1, step)):
+            probs.append("observability matrix %s for %d orders, expected %s for %d orders (br=%d, ordmax=%d, step=%d)"
+                         % (np.shape(Op), len(Ap), (n_dof * br, ordmax), len(range(0, ordmax + 1, step)), br, ordmax, step))
+        if len(calls_p) != len(Ys):
+            probs.append("%d Hankel matrices built for %d setups" % (len(calls_p), len(Ys)))
+        for k, (c, y) in enumerate(zip(calls_p, Ys)):
+            Y_exp = np.vstack([y["ref"], y["mov"]])
+            want = ((br + 1) * Y_exp.shape[0], (br + 1) * n_ref)
+            if c["br"] != br or c["method"] != method or not np.array_equal(c["Y"], Y_exp) or not np.array_equal(c["Yref"], y["ref"]) or c["H"].shape != want:
+                probs.append("setup %d: build_hank got br=%r, method=%r, data %s, references %s and returned %s; expected br=%d, method=%r, [ref; mov] %s, ref %s, H %s"
+                             % (k, c["br"], c["method"], c["Y"].shape, c["Yref"].shape, c["H"].shape, br, method, Y_exp.shape, y["ref"].shape, want))
+                continue
+            if method == "dat":
+                G, cond = projection_gram(Y_exp, y["ref"], br)
+                HH = c["H"] @ c["H"].T
+                if G is None:
+                    ctx.not_judged += 1
+                elif not np.allclose(HH, np.trace(HH) / np.trace(G) * G, rtol=0, atol=1e-8 * np.abs(HH).max()):
+                    probs.append("setup %d: H H^T is not a positive multiple of the projection Gram" % k)
+            else:
+                conv = convention(ctx, method, br)
+                if conv and conv[1]:
+                    Hdef = independent_vec(method, Y_exp, y["ref"], br)
+                    if not np.allclose(c["H"], Hdef, rtol=0, atol=1e-9 * max(1.0, np.abs(Hdef).max())):
+                        probs.append("setup %d: the Hankel matrix differs from the definition, max deviation %.3g" % (k, np.abs(c["H"] - Hdef).max()))
+        if probs:
+            ofail(ctx, key, "%s: %s" % (what, "; ".join(probs)), case)
+
+    # ---- SingleSetup(data, fs) [+ add_algorithms(alg), run_by_name(name): one parameter each, always called positionally here]
+    for n, (cls, method) in enumerate(((SSIcov, "cov_mm"), (SSIcov, "cov_R"), (SSIdat, "dat"))):
+        l = 3 + n % 2
+        br = 2 + n
+        data = dyad(rng, (240, l))
+        ref = rng.permutation(l)[:2].tolist()
+        conv = True if method == "dat" else convention(ctx, method, br)
+        ok = bool(conv) and (conv is True or conv[1])
+        Hk = glue_case(ctx, cls, method, data, ref, br, inst_ok=ok, tag="positional-call:keyword-form", setup_form="keyword")
+        Hp = glue_case(ctx, cls, method, data, ref, br, inst_ok=ok, tag="positional-call:positional-form", setup_form="positional")
+        ctx.hist("positional-call", ("SingleSetup", method))
+        if Hk is not None and (Hp is None or not _same(Hk, Hp)):
+            ofail(ctx, "C12:SingleSetup:positional-call", "SingleSetup(data, 10.0) built positionally + %s(ref_ind=%s, br=%d): result.H %s, with SingleSetup(data=..., fs=...) it is %s%s"
+                  % (cls.__name__, ref, br, "not available" if Hp is None else np.shape(Hp), np.shape(Hk),
+                     "" if Hp is None or np.shape(Hp) != np.shape(Hk) else ", max deviation %.3g" % np.abs(Hp - Hk).max()),
+                  dict(kind="positional-call", entry="SingleSetup", order=["data", "fs"], cls=cls.__name__, method=method, ref_ind=ref, br=br, data=data.tolist()))
+
+    # ---- MultiSetup_PreGER(fs, ref_ind, datasets)
+    for n, (clsname, method) in enumerate((("SSIcov_MS", "cov_mm"), ("SSIcov_MS", "cov_R"), ("SSIdat_MS", "dat"))):
+        n_ref, n_movs, br, ordmax = [(2, (1, 3), 3, 4), (1, (2, 1, 3), 2, 2), (2, (3, 1), 2, 3)][n]
+        datasets = [dyad(rng, (int(rng.integers(200, 260)), n_ref + m)) for m in n_movs]
+        ref_ind = [rng.permutation(d.shape[1])[:n_ref].tolist() for d in datasets]
+        conv = True if method == "dat" else convention(ctx, method, br)
+        ok = bool(conv) and (conv is True or conv[1])
+        Hk = multi_case(ctx, clsname, method, datasets, ref_ind, br, ordmax, inst_ok=ok, tag="positional-call:keyword-form")
+        Hp = multi_case(ctx, clsname, method, datasets, ref_ind, br, ordmax, inst_ok=ok, tag="positional-call:positional-form", positional=True)
+        ctx.hist("positional-call", ("MultiSetup_PreGER", method))
+        if len(Hk) != len(Hp) or not all(_same(a, b) for a, b in zip(Hk, Hp)):
+            ofail(ctx, "C12:MultiSetup_PreGER:positional-call", "MultiSetup_PreGER(10.0, ref_ind, datasets) built positionally + %s(%s): the per-setup Hankel matrices %s differ from "
+                  "those of the keyword form %s" % (clsname, method, [h.shape for h in Hp], [h.shape for h in Hk]),
+                  dict(kind="positional-call", entry="MultiSetup_PreGER", order=["fs", "ref_ind", "datasets"], cls=clsname, method=method, br=br, ordmax=ordmax,
+                       ref_ind=ref_ind, datasets=[d.tolist() for d in datasets]))
+
+
 def run(ctx):
     rng = ctx.np_rng
     ctx.extra["rule"] = ("shapes (l,r,br,Ndat,method) x {impulse-basis measurement, random dyadic data}; a case is non-trivial when "
@@ -854,7 +1053,9 @@ def run(ctx):
                          "permuted / subsets, ordmax swept to the largest legal order, multi-setup path (PreGER) with n_mov != n_ref observed "
                          "by wrapping ssi.build_hank; the calc_unc=True branch of cov_mm on a (Ndat, br, nb) grid covering N % nb in {0, 1, nb-1}, N < nb, N == nb (impulse basis + "
                          "exact model), class runs on tables wider than long / square / tall; integer-valued records stored as float64/int8..int64/uint8..uint64 (values up to the top of "
-                         "each range) against the exact integer model; every build_hank call is followed by a bit-comparison of its arguments")
+                         "each range) against the exact integer model; every build_hank call is followed by a bit-comparison of its arguments; "
+                         "build_hank, SSI_multi_setup, SingleSetup and MultiSetup_PreGER are also called fully positionally in the pristine parameter order "
+                         "(non-default calc_unc/nb/step) and must return what the keyword call returns")
     _CONV.clear()
     # ---- corpus first (failing inputs of changes that once slipped through)
     pending = ([], [])
@@ -865,6 +1066,8 @@ def run(ctx):
         "C12_determined_by_impulses / C12_impl_equals_mm / C12_impl_equals_R: a map that is bilinear on the shape and agrees with the model on every impulse pair equals the "
         "model on ALL data of that shape; the check supplies the second premise exhaustively (whole basis) and tests the first (bilinearity) on random dyadic data",
     ]
+    # ---- positional call forms of every driven entry point (pristine parameter order, hard-coded)
+    positional_calls(ctx)
     # ---- shapes
     if ctx.quick():
         shapes = [(1, 1, 1, 8), (2, 1, 1, 9), (2, 2, 2, 12), (3, 2, 1, 10), (2, 1, 3, 14), (3, 1, 2, 13)]
